@@ -4,6 +4,7 @@ CONSTANTS
   MaxGen = 3
   RestartRule = "stop_old"
   PortRule = "sticky"
+  ShutdownRule = "close_always"
 INVARIANT OneResponder
 INVARIANT AnswersTrue
 CHECK_DEADLOCK FALSE
